@@ -139,13 +139,11 @@ MFitsNat(m) == Len(m) <= 2 \/ (Len(m) = 3 /\ (m[3] < 21 \/ (m[3] = 21 /\ (m[2] <
 \* bytes, most significant first -> magnitude
 MFromBytesBE(bs) == FoldLeft(LAMBDA acc, b : MAddSmall(MMulSmall(acc, 256), b), <<>>, bs)
 
-\* 2^k for k >= 0, by steps of 2^13
-RECURSIVE MPow2(_)
-MPow2(k) == IF k < 13 THEN <<2 ^ k>> ELSE MMulSmall(MPow2(k - 13), 8192)
+\* 2^k for k >= 0, by steps of 2^13 (iterative: a RECURSIVE definition of depth ~80 already overflows TLC's Java stack)
+MPow2(k) == MMulSmall(FoldLeft(LAMBDA acc, i : MMulSmall(acc, 8192), <<1>>, [i \in 1..(k \div 13) |-> i]), 2 ^ (k % 13))
 
 \* 5^k
-RECURSIVE MPow5(_)
-MPow5(k) == IF k < 5 THEN MFromNat(5 ^ k) ELSE MMulSmall(MPow5(k - 5), 3125)
+MPow5(k) == MMulSmall(FoldLeft(LAMBDA acc, i : MMulSmall(acc, 3125), <<1>>, [i \in 1..(k \div 5) |-> i]), 5 ^ (k % 5))
 
 -----------------------------------------------------------------------------
 (* Signed integers                                                          *)
